@@ -409,7 +409,7 @@ def oracle(ctx, deep=False, cal=False, only=None):
     rng = ctx.rng
     old_threads = numba.get_num_threads()
     numba.set_num_threads(max(1, min(old_threads, int(os.environ.get("VERIF_ORACLE_THREADS", "1")))))
-    budget = float(os.environ.get("C01_ORACLE_BUDGET_S", "0")) or (ctx.pick(100.0, 780.0) if not deep else 3000.0)
+    budget = float(os.environ.get("C01_ORACLE_BUDGET_S", "0")) or (ctx.pick(45.0, 600.0) if not deep else 3000.0)
     # every identity costs about 5 Numba specialisations (the JIT is most of the quick tier's time): quick checks ONE of
     # the two identities, drawn from ctx.rng (C01_IDENTS overrides), thorough / deep both plus the extra dual spaces
     if os.environ.get("C01_IDENTS"):
@@ -424,6 +424,7 @@ def oracle(ctx, deep=False, cal=False, only=None):
     worst_const = {}
     reached, climbed = {}, {}
     n_extra, max_extra = 0, (4 if not deep else 1000)
+    jit_cpu = 0.0   # CPU time of the Numba compilation (first rung of a mesh beyond 1 s): not charged to the budget
     edge_cov, vert_cov = set(), set()
     plan = _plan(ctx, deep)
     if only:
@@ -435,8 +436,8 @@ def oracle(ctx, deep=False, cal=False, only=None):
     done = 0
     try:
         for (name, variant, top, extend) in plan:
-            if done >= 1 and time.process_time() - c_start > budget:
-                res.notes.append(f"CPU-time budget {budget:.0f}s reached after {done}/{len(plan)} meshes")
+            if done >= 1 and time.process_time() - c_start - jit_cpu > budget:
+                res.notes.append(f"CPU-time budget {budget:.0f}s (JIT excluded) reached after {done}/{len(plan)} meshes")
                 break
             mesh = admissible_mesh(name, variant, rng)
             V, E = mesh["V"], mesh["E"]
@@ -474,7 +475,10 @@ def oracle(ctx, deep=False, cal=False, only=None):
             while ri <= last:
                 reg, sing = LADDER[ri]
                 # alternate between an explicit parameter object and the global parameters (both routes are public API)
+                c_rung = time.process_time()
                 mats = Assembled(api, spaces, these, reg, sing, use_global=(ri % 2 == 1))
+                if ri == 0:
+                    jit_cpu += max(0.0, time.process_time() - c_rung - 1.0)
                 for ident in these:
                     w, wdet = 0.0, None
                     for (lab, A, B, g, psi) in tr:
@@ -557,6 +561,7 @@ def oracle(ctx, deep=False, cal=False, only=None):
     res.stats["vertex_remap_cases_seen"] = len({a for (a, _) in vert_cov} | {b for (_, b) in vert_cov})
     res.stats["oracle_wall_s"] = round(time.time() - t_start, 1)
     res.stats["oracle_cpu_s"] = round(time.process_time() - c_start, 1)
+    res.stats["of_which_jit_cpu_s"] = round(jit_cpu, 1)
     return res
 
 
